@@ -6,6 +6,10 @@
 //   depinfo  : "<hex input>"                                -> DependencyInfoParser action stream
 //   resolve  : "<hex wd> <hex path>"                        -> the path computation of ShellCommand's actOnRuleDependency
 //   c11bs    : "<style> <hex wd> <hex deps-file contents>"  -> one real BuildSystem build of a shell command with `deps:`
+//   c11e2e   : "<hex case dir> <style> <hex working-directory | none> <s|l>:<hex deps name>,... <step>,..."
+//              -> a whole HISTORY through the real shell-command path: every `B` step is one build of the command in a fresh
+//              BuildSystem over the same database (like consecutive `llbuild buildsystem build` runs); the other steps change
+//              the file system in between (W<path>:<contents> write, A<path> append one byte / create, R<path> remove)
 //
 // The parser inputs are copied into an exact-size malloc'd buffer with NO terminator: under the "asan" configuration a
 // read at or after `end` is a heap-buffer-overflow report (= abort, = a result attributed to that input).
@@ -27,7 +31,9 @@
 #include "llvm/Support/Path.h"
 #include "llvm/Support/raw_ostream.h"
 
+#include <fcntl.h>
 #include <fstream>
+#include <ftw.h>
 #include <limits.h>
 #include <memory>
 #include <mutex>
@@ -174,6 +180,8 @@ public:
   std::vector<std::string> deps;
   std::vector<std::string> other;
   unsigned depErrors = 0;
+  unsigned openErrors = 0;
+  unsigned started = 0;
   bool failure = false;
   VDelegate() : BuildSystemDelegate("mock", 0) {}
 
@@ -190,10 +198,11 @@ public:
   void commandStatusChanged(Command*, CommandStatusKind) override {}
   void commandPreparing(Command*) override {}
   bool shouldCommandStart(Command*) override { return true; }
-  void commandStarted(Command*) override {}
+  void commandStarted(Command*) override { std::unique_lock<std::mutex> l(mu); started++; }
   void commandHadError(Command*, StringRef d) override {
     std::unique_lock<std::mutex> l(mu);
     if (d.startswith("error reading dependency file")) depErrors++;
+    else if (d.startswith("unable to open dependencies file")) openErrors++;
     else other.push_back("cmderror " + d.str());
   }
   void commandHadNote(Command*, StringRef) override {}
@@ -250,6 +259,104 @@ void mode_c11bs(const std::string& scratch) {
   }
 }
 
+
+// ---------------------------------------------------------------------------------------------------
+// c11e2e: histories (build / change a path / build ...) through the real shell-command path with a `deps:` list
+// ---------------------------------------------------------------------------------------------------
+std::string yamlQuote(const std::string& s) {
+  std::string out = "\"";
+  char buf[8];
+  for (unsigned char c : s) {
+    if (c == '"' || c == '\\') { out.push_back('\\'); out.push_back(c); }
+    else if (c < 0x20 || c >= 0x7f) { snprintf(buf, sizeof buf, "\\x%02X", c); out += buf; }
+    else out.push_back(c);
+  }
+  return out + "\"";
+}
+
+// mkdir -p of every proper prefix of `path` (components are taken literally, `..` included)
+void makeParents(const std::string& path) {
+  for (size_t i = 1; i < path.size(); i++)
+    if (path[i] == '/' && path[i - 1] != '/') mkdir(path.substr(0, i).c_str(), 0755);
+}
+
+int rmOne(const char* p, const struct stat*, int, struct FTW*) { return remove(p); }
+
+void mode_c11e2e(const std::string& scratch) {
+  std::string line;
+  char cwd0[PATH_MAX];
+  if (!getcwd(cwd0, sizeof cwd0)) cwd0[0] = 0;
+  while (std::getline(std::cin, line)) {
+    auto f = vh::split(line);
+    if (f.size() != 5) { emit("bad-op"); continue; }
+    std::string root = vh::hexDecode(f[0]), style = f[1];
+    // the case directory is removed recursively at the end: only ever below the scratch directory
+    if (root.compare(0, scratch.size() + 1, scratch + "/") != 0 || root.find("/../") != std::string::npos) { emit("bad-root"); continue; }
+    nftw(root.c_str(), rmOne, 16, FTW_DEPTH | FTW_PHYS);
+    std::string cwd = root + "/r", dbdir = root + "/db";
+    makeParents(cwd + "/x"); makeParents(dbdir + "/x");
+    std::string manifest = dbdir + "/manifest.llbuild", db = dbdir + "/build.db";
+    bool scalar = f[3].compare(0, 2, "s:") == 0;
+    std::vector<std::string> names = vh::hexList(f[3].substr(2));
+    std::string m = "client:\n  name: mock\n\ncommands:\n  C.1:\n    tool: shell\n    outputs: [\"<out>\"]\n    args: [\"/bin/true\"]\n";
+    if (scalar && names.size() == 1) m += "    deps: " + yamlQuote(names[0]) + "\n";
+    else {
+      m += "    deps: [";
+      for (size_t i = 0; i < names.size(); i++) { if (i) m += ", "; m += yamlQuote(names[i]); }
+      m += "]\n";
+    }
+    m += "    deps-style: " + style + "\n";
+    if (f[2] != "none") {
+      std::string wd = vh::hexDecode(f[2]);
+      m += "    working-directory: " + yamlQuote(wd) + "\n";
+      makeParents((wd[0] == '/' ? wd : cwd + "/" + wd) + "/x");
+    }
+    writeFile(manifest, m);
+    if (chdir(cwd.c_str()) != 0) { emit("bad-cwd"); continue; }
+    std::string out;
+    for (auto& st : vh::split(f[4], ',')) {
+      if (st.empty()) continue;
+      if (st == "B") {
+        std::string o;
+        VDelegate d;
+        {
+          BuildSystem system(d, createLocalFileSystem());
+          std::string err;
+          if (!system.attachDB(db, &err)) o = "attach-failed";
+          else if (!system.loadDescription(manifest)) o = "load-failed";
+          else {
+            auto r = system.build(BuildKey::makeCommand("C.1"));
+            o = std::string("status=") + (!r.hasValue() ? "novalue" : r.getValue().isSuccessfulCommand() ? "ok" :
+                                          r.getValue().isFailedCommand() ? "failed" : "other");
+          }
+        }
+        o += " ran=" + std::to_string(d.started) + " errors=" + std::to_string(d.depErrors) + " open=" + std::to_string(d.openErrors) +
+             " deps=" + join(d.deps);
+        if (!d.other.empty()) o += " other=" + vh::hexEncode(d.other[0]);
+        if (!out.empty()) out += " | ";
+        out += o;
+        continue;
+      }
+      char op = st[0];
+      auto colon = st.find(':');
+      std::string path = vh::hexDecode(st.substr(1, colon == std::string::npos ? std::string::npos : colon - 1));
+      if (path.compare(0, root.size() + 1, root + "/") != 0) { out += " bad-path"; continue; }
+      if (op == 'W' && colon != std::string::npos) { makeParents(path); writeFile(path, vh::hexDecode(st.substr(colon + 1))); }
+      else if (op == 'A') {
+        makeParents(path);
+        int fd = open(path.c_str(), O_WRONLY | O_CREAT | O_APPEND, 0644);
+        if (fd < 0 || write(fd, "x", 1) != 1) out += " append-failed";
+        if (fd >= 0) close(fd);
+      }
+      else if (op == 'R') { if (unlink(path.c_str()) != 0) out += " remove-failed"; }
+      else out += " bad-step";
+    }
+    emit(out.empty() ? "." : out);
+    if (chdir(cwd0[0] ? cwd0 : "/") != 0) {}
+    nftw(root.c_str(), rmOne, 16, FTW_DEPTH | FTW_PHYS);
+  }
+}
+
 }  // namespace
 
 int main(int argc, char** argv) {
@@ -259,6 +366,7 @@ int main(int argc, char** argv) {
   else if (mode == "depinfo") mode_depinfo();
   else if (mode == "resolve") mode_resolve();
   else if (mode == "c11bs" && argc >= 3) mode_c11bs(argv[2]);
+  else if (mode == "c11e2e" && argc >= 3) mode_c11e2e(argv[2]);
   else { fprintf(stderr, "unknown mode %s\n", argv[1]); return 2; }
   return 0;
 }
